@@ -254,6 +254,84 @@ fn run(c: &mut Case) {
     if sample_due {
         set_sample_c09(c, &doc, &base.bytes, m, u, w);
     }
+    // (c') an explicit width is honoured exactly or the call is refused — never silently widened: a Utf8 / Binary element
+    // allowed at some point of a fresh document is written there with a 1- or 2-byte size field and a payload on either
+    // side of what that field can describe (126 / 127 / 128 / 200 bytes, 16382 / 16383 / 16384 bytes; the all-ones value is
+    // reserved). It must come back rejected when it does not fit, and with exactly that field width when it does.
+    if c.idx % 3 == 1 {
+        let o2 = DocOpts { p_width: 0, p_unknown: 10, raw: false, shaping: false, full_specs: false };
+        let d2 = gen_doc(&mut c.rng, c.tier, &o2);
+        d2.spec.install();
+        let calls = calls_from_tree(&d2.tree, &mut |_| false, false);
+        if !calls.is_empty() {
+            let pos = c.rng.urange(0, calls.len());
+            let chain: Vec<u64> = super::c19::shadow_at(&calls, pos).iter().map(|x| x.0).collect();
+            let cands: Vec<(u64, crate::spec::Ty)> = d2.spec.allowed_under(&chain).into_iter().filter(|e| matches!(e.ty, crate::spec::Ty::S | crate::spec::Ty::B)).map(|e| (e.id, e.ty)).collect();
+            if !cands.is_empty() {
+                let (id, ty) = *c.rng.pick(&cands);
+                let (w, len) = *c.rng.pick(&[(1usize, 126usize), (1, 127), (1, 128), (1, 200), (2, 16382), (2, 16383), (2, 16384), (1, 5), (2, 300)]);
+                let item = if ty == crate::spec::Ty::S { Item::S(id, "x".repeat(len)) } else { Item::B(id, c.rng.bytes(len)) };
+                let mut h: Vec<WCall> = calls[..pos].to_vec();
+                h.push(WCall::Write(item.clone(), SizeOpt::Width(w)));
+                let run = run_calls(&h, ScriptedWrite::new());
+                c.eval();
+                c.count("narrow_width_probes");
+                let fits = (len as u64) < (1u64 << (7 * w)) - 1;
+                if run.results[..pos].iter().all(|r| r.is_ok()) {
+                    let r = &run.results[pos];
+                    let wit2 = |m: &str| doc_json(&d2).set("clause", J::s("c': width honoured or refused")).set("calls", calls_json(&h, 60)).set("problem", J::s(m));
+                    match r {
+                        crate::wr::WRes::Caught(cg) => c.violation(format!("C09/narrow-width/writer-{}", cg.sig()), cg.text(), wit2("panic")),
+                        crate::wr::WRes::Ok if !fits => c.violation(
+                            format!("C09/width-not-honoured/too-narrow-accepted/w{}/{}", w, if ty == crate::spec::Ty::S { "utf8" } else { "binary" }),
+                            format!("a {}-byte {} was accepted with a {}-byte size field, which cannot describe it", len, if ty == crate::spec::Ty::S { "Utf8 element" } else { "Binary element" }, w),
+                            wit2("accepted although the requested width cannot hold the size"),
+                        ),
+                        crate::wr::WRes::Err(crate::wr::WErr::Io { .. }) => {}
+                        crate::wr::WRes::Err(e) if fits => c.violation(format!("C09/width-rejected-although-it-fits/w{}", w), format!("a {}-byte element with a {}-byte size field was rejected: {:?}", len, w, e), wit2("rejected although it fits")),
+                        _ => {}
+                    }
+                }
+            }
+        }
+    }
+    // (c'') the same for a master: started with a 1- or 2-byte size field and filled beyond what that field can describe,
+    // its End (and a flush()) must be refused, not answered with a wider field
+    if c.idx % 3 == 2 {
+        let o2 = DocOpts { p_width: 0, p_unknown: 10, raw: false, shaping: false, full_specs: false };
+        let d2 = gen_doc(&mut c.rng, c.tier, &o2);
+        d2.spec.install();
+        let calls = calls_from_tree(&d2.tree, &mut |_| false, false);
+        if !calls.is_empty() {
+            let pos = c.rng.urange(0, calls.len());
+            let chain: Vec<u64> = super::c19::shadow_at(&calls, pos).iter().map(|x| x.0).collect();
+            let ms: Vec<u64> = d2.spec.allowed_under(&chain).into_iter().filter(|e| e.ty == crate::spec::Ty::Master).map(|e| e.id).collect();
+            if !ms.is_empty() {
+                let m_id = *c.rng.pick(&ms);
+                let (w, len) = *c.rng.pick(&[(1usize, 125usize), (1, 126), (1, 200), (2, 16381), (2, 16384), (1, 20)]);
+                let mut h: Vec<WCall> = calls[..pos].to_vec();
+                h.push(WCall::Write(Item::Start(m_id), SizeOpt::Width(w)));
+                h.push(WCall::Write(Item::B(crate::spec::VOID_ID, c.rng.bytes(len)), SizeOpt::Default));
+                let closer = if c.rng.chance(1, 4) { WCall::Flush } else { WCall::Write(Item::End(m_id), SizeOpt::Default) };
+                h.push(closer.clone());
+                let run = run_calls(&h, ScriptedWrite::new());
+                c.eval();
+                c.count("narrow_width_master_probes");
+                // content = Void header (1 id byte + minimal size field) + payload
+                let content = 1 + crate::refcodec::min_size_width(len as u64).unwrap_or(8) as u64 + len as u64;
+                let fits = content < (1u64 << (7 * w)) - 1;
+                if run.results[..pos + 2].iter().all(|r| r.is_ok()) && !fits {
+                    if let crate::wr::WRes::Ok = run.results[pos + 2] {
+                        c.violation(
+                            format!("C09/width-not-honoured/too-narrow-accepted/w{}/master-{}", w, if closer == WCall::Flush { "flush" } else { "end" }),
+                            format!("a master started with a {}-byte size field was closed over {} bytes of content, which that field cannot describe", w, content),
+                            doc_json(&d2).set("clause", J::s("c'': width honoured or refused (master)")).set("calls", calls_json(&h, 60)),
+                        );
+                    }
+                }
+            }
+        }
+    }
     // (e) the size option never decides whether a master item is accepted ("an explicit width and, like it, unknown size
     // affect size fields only"): one master of a fresh document (half of them over specifications with recursive masters)
     // is handed over as one Full item — well-formed, or with a nested master left open (also one of its own id), or with a
